@@ -39,7 +39,7 @@ func CompLine() (string, bool) {
 	}
 
 	pointI, err := strconv.Atoi(point)
-	if err != nil || len(line) < pointI {
+	if err != nil || pointI < 0 || len(line) < pointI {
 		return "", false
 	}
 
